@@ -3,26 +3,44 @@ C13 - a CSV line parses back to the fields it was generated from.
 
 Lean: lean/N0Verif/Model/Csv.lean, Props/C13.lean
   C13_roundtrip, C13_roundtrip_writer, C13_field_count, C13_only_valueerror
-B streams: csv.parse (generated + soup, str + bytes), csv.gen, csv.writer
+  Gen/CsvPy.lean is regenerated from the Python source by translate() (harness/translate_py_csv.py);
+  C13_generated_parse_eq, C13_generated_parse_bytes_eq, C13_generated_gen_eq prove it equal to the model,
+  C13_roundtrip_generated(_bytes) is the round trip of the translated code.
+B streams: csv.parse (generated + soup, str + bytes), csv.gen, csv.writer (hand-written model);
+           csvpy.parse (str + bytes), csvpy.gen (the definitions translated from the source, delimiters of any length)
 C evaluators: roundtrip (library generator / csv.writer; str / bytes), field count
 """
 import csv
 import io
 import itertools
+import os
+import re
 
 from harness import core
+from harness import translate_py_csv as tr
 from harness.core import enc_str, enc_strs, dec_str
 
 MANIFEST = dict(
         category="proof",
-        technique="Lean 4 theorem over a hand-written model + differential correspondence with the implementation",
+        technique="Lean 4 theorems over a hand-written model + Python-subset-to-Lean translator with machine-checked equality "
+                  "between the translated source and the model + differential correspondence with the implementation",
         text="Lean theorems C13_roundtrip / C13_roundtrip_writer / C13_field_count: for every non-empty row of fields "
              "without line breaks, every single-character delimiter other than the quote/CR/LF and every CR/LF line ending, "
              "parsing the line produced by the library generator or by csv.writer (QUOTE_MINIMAL) returns exactly the row; "
-             "unbounded in row and field length. The model of parse_complex_csv_line is compared with the real function on "
-             "generated and random lines (str and bytes), and the statement itself is executed on the implementation "
-             "(random + exhaustive small scope).",
-        note="csv.writer's quoting decision is modelled (validated by a stream); bytes are modelled as characters 0..255.",
+             "unbounded in row and field length. The model is tied to the source twice. (1) Translator + theorem: on every run "
+             "harness/translate_py_csv.py re-translates parse_complex_csv_line (str and bytes specialisation) and "
+             "generate_complex_csv_row (rows of str) from the Python text into Lean (Gen/CsvPy.lean: loop-carried locals become a "
+             "structure, the loop body a step function, the loop a fold) and Lean re-checks C13_generated_parse_eq, "
+             "C13_generated_parse_bytes_eq and C13_generated_gen_eq (translated definition = hand-written model, all delimiters "
+             "characters, lines and rows) and the corollaries C13_roundtrip_generated(_bytes); a change of these functions changes "
+             "the generated text, so it either still satisfies the equalities or a proof obligation fails (code outside the "
+             "translated subset is reported as a broken tie). (2) Correspondence: the hand-written model and the translated "
+             "definitions are compared with the real functions on generated and random lines (str and bytes), and the statement "
+             "itself is executed on the implementation (random + exhaustive small scope).",
+        note="csv.writer's quoting decision is modelled (validated by a stream); bytes are modelled as characters 0..255. "
+             "The translator (its reading of the Python subset: pure expressions, str/bytes as character lists, static "
+             "isinstance resolution per specialisation, identity process_field) is trusted and exercised by the csvpy.* streams; "
+             "see notes/C13-gen.md.",
         design_ref="5/C13",
 )
 
@@ -45,6 +63,28 @@ def gen_field(rng, d):
 
 def gen_row(rng, d):
     return [gen_field(rng, d) for _ in range(rng.choice([1, 1, 2, 2, 3, 4, 5]))]
+
+
+# ---------------------------------------------------------------------------
+# translator hook (A.1): regenerate Gen/CsvPy.lean from the source under test
+# ---------------------------------------------------------------------------
+def translate(ctx):
+    info = {"file": "lean/N0Verif/Gen/CsvPy.lean", "source": tr.SRC, "translator": "harness/translate_py_csv.py"}
+    try:
+        legend, changed, differs = tr.regenerate(core.REPO)
+        info.update(names=legend, regenerated_text_changed=changed, differs_from_unchanged_code=differs)
+        if differs:
+            # the text is new: make sure Lean accepts it as definitions (the equalities are checked by the proof step)
+            rc, out = core.sh(["lake", "build", "N0Verif.Gen.CsvPy"], cwd=core.LEAN_DIR)
+            if rc != 0:
+                raise tr.TranslateError("Lean rejects the generated definitions: " + out[-600:])
+    except tr.TranslateError as e:
+        # the code left the translated subset: the tie is broken, not the infrastructure.  Keep the text generated
+        # from the unchanged code and let B and C look for a failing input.
+        ctx.tie_broken.append({"tie": "translator harness/translate_py_csv.py (Python subset -> Lean)", "detail": str(e)})
+        tr.restore_baseline()
+        info.update(error=str(e), restored="text generated from the unchanged code")
+    ctx.extra["translated"] = info
 
 
 def impl():
@@ -102,16 +142,50 @@ def shrink_failure(evaluator, case):
     return core.shrink(case, lambda c: c.get("via") in ("gen", "writer") and isinstance(c.get("bytes"), bool) and c.get("row") and all(isinstance(f, str) and "\n" not in f and "\r" not in f for f in c["row"]) and c.get("d") in DELIMS and c.get("eol") in EOLS and check_roundtrip(c) is not None)
 
 
+def stream_impl(stream, c):
+    """the implementation's answer for a case of a correspondence stream"""
+    _, gen = impl()
+    name = stream.split("/")[0]
+    if name in ("csv.gen", "csvpy.gen"):
+        return "ok " + enc_str(gen(c["row"], c["d"], c["eol"]))
+    if name == "csv.writer":
+        return "ok " + enc_str(writer_line(c["row"], c["d"], c["eol"]))
+    return parse_canon(c["line"], c["d"], c.get("bytes", False))
+
+
 def replay(rp):
+    kind = rp.get("kind")
+    if kind == "tie":
+        # does the translator still refuse the source?
+        try:
+            tr.translate_source(open(os.path.join(core.REPO, tr.SRC), encoding="utf-8").read())
+        except tr.TranslateError as e:
+            print("translator:", e)
+            return 1
+        print("translator: the source is inside the translated subset")
+        return 0
+    if kind == "proof":
+        # regenerate the definitions from the source and re-check the theorems
+        try:
+            _legend, changed, differs = tr.regenerate(core.REPO)
+        except tr.TranslateError as e:
+            print("translator:", e)
+            return 1
+        rc, out = core.sh(["lake", "build", "N0Verif.Props.C13"], cwd=core.LEAN_DIR)
+        print("generated text differs from the text of the unchanged code:", differs)
+        print(out[-3000:])
+        print("result:", "the theorems check" if rc == 0 else "a proof obligation fails")
+        return 1 if rc != 0 else 0
     c = rp["case"]
-    if "row" in c:
+    if kind == "fail" or (kind is None and "via" in c):
         bad = check_roundtrip(c)
         print("case:", c)
         print("result:", "property holds" if bad is None else bad)
         return 1 if bad else 0
-    print("correspondence replay:", c)
+    stream = rp.get("correspondence_stream", "csv.parse")
+    print("correspondence replay (%s):" % stream, c)
     mo = core.run_driver([rp["line"]])[0]
-    io_ = parse_canon(c["line"], c["d"], c.get("bytes", False)) if "line" in c else None
+    io_ = stream_impl(stream, c)
     print("model:", mo, "impl:", io_)
     return 1 if mo != io_ else 0
 
@@ -119,6 +193,15 @@ def replay(rp):
 # ---------------------------------------------------------------------------
 def run(ctx):
     parse, gen = impl()
+    if ctx.proof is not None and getattr(ctx.proof, "failed", None):
+        # say where the proof step broke (with a regenerated Gen/CsvPy.lean this is normally Proofs/CsvGenEq.lean:
+        # the translated source no longer equals the model)
+        log = ctx.proof.build_log or ""
+        ctx.extra["proof_step"] = {
+            "modules_with_errors": sorted(set(re.findall(r"^- (N0Verif\.\S+)", log, re.M))),
+            "first_errors": [l[:240] for l in log.split("\n") if l.startswith("error: N0Verif")][:6],
+            "generated_text_differs_from_unchanged_code": ctx.extra.get("translated", {}).get("differs_from_unchanged_code"),
+        }
     n = ctx.budget(4000, 120000)
     # ---- B1: generator and writer models
     rng = ctx.rng("gen")
@@ -159,6 +242,31 @@ def run(ctx):
         bcases.append({"d": c["d"], "line": bl, "bytes": True})
     ctx.correspond("csv.parse/str", pcases, parse_line_of, lambda c: parse_canon(c["line"], c["d"], False))
     ctx.correspond("csv.parse/bytes", bcases, parse_line_of, lambda c: parse_canon(c["line"], c["d"], True))
+    # ---- B3: the definitions translated from the source (Gen/CsvPy.lean), delimiters of any length
+    rng = ctx.rng("csvpy")
+    odd = ["", ",;", '",', "ab", '"']
+    gcases = list(cases)
+    for c in cases[: max(50, len(cases) // 10)]:
+        d = rng.choice(odd)
+        gcases.append({"d": d, "row": [f.replace(",", d) if rng.random() < 0.5 else f for f in c["row"]], "eol": c["eol"]})
+    ctx.correspond(
+        "csvpy.gen",
+        gcases,
+        lambda c: ("csvpy.gen %s %s %s" % (enc_str(c["d"]), enc_str(c["eol"]), enc_strs(c["row"]))).rstrip(),
+        lambda c: "ok " + enc_str(gen(c["row"], c["d"], c["eol"])),
+    )
+    ppy = list(pcases)
+    for c in pcases[: max(50, len(pcases) // 10)]:
+        d = rng.choice(odd)
+        ppy.append({"d": d, "line": c["line"].replace(c["d"], d) if rng.random() < 0.5 else c["line"], "bytes": False})
+    bpy = []
+    for c in ppy:
+        try:
+            bpy.append({"d": c["d"], "line": c["line"].encode("utf-8").decode("latin-1"), "bytes": True})
+        except Exception:
+            continue
+    ctx.correspond("csvpy.parse/str", ppy, lambda c: "csvpy.parse.str %s %s" % (enc_str(c["d"]), enc_str(c["line"])), lambda c: parse_canon(c["line"], c["d"], False))
+    ctx.correspond("csvpy.parse/bytes", bpy, lambda c: "csvpy.parse.bytes %s %s" % (enc_str(c["d"]), enc_str(c["line"])), lambda c: parse_canon(c["line"], c["d"], True))
     # ---- C: the statement on the implementation
     rng = ctx.rng("roundtrip")
     rcases = []
@@ -184,4 +292,10 @@ def run(ctx):
     ctx.extra["assumptions"] = [
         "bytes are modelled as characters 0..255; the parser code is identical for str and bytes",
         "csv.writer is modelled (QUOTE_MINIMAL decision of CPython 3.12 _csv.c) and validated by stream csv.writer",
+        "the generated definitions cover the specialisations (str line, str delimiter), (bytes line, bytes delimiter) with the default "
+        "process_field, and rows of str; mixed str/bytes arguments (decode/encode of the delimiter) and non-str row items are not translated",
+    ]
+    ctx.extra["trusted_base"] = [
+        "translator harness/translate_py_csv.py: its reading of the Python subset (notes/C13-gen.md) and the run-time support "
+        "definitions it emits (foldE, sliceTo, ...) together with Py/Basic.lean (rstrip, startsWith, isInfix, replace); exercised by the csvpy.* streams",
     ]
